@@ -161,6 +161,30 @@ def run(facts, cg):
                     outer = _strip(t, ('::from_le_bytes', '::from_be_bytes'))
                     ocs = calls_in(outer)
                     bad = [c for c in ocs if c.endswith(('::len', '::header_size', '::encoded_len'))]
+                    # ... nor computed from the layout the writer happens to use (`14 + dictionary_size + 8 + 64` is where the header ends, which
+                    # is where bita's own archives start their chunk data - the format lets it start anywhere behind): integer constants
+                    # added on the way are the signature of such a computation
+                    def _outside_slicing(t_):
+                        # the term without what only serves to cut bytes out of the header (slice bounds are layout by nature)
+                        if isinstance(t_, tuple):
+                            if t_[0] == 'call' and t_[1].split('::')[-1] in ('get', 'index', 'split_at', 'try_from', 'try_into', 'first_chunk', 'get_unchecked', 'to_vec'):
+                                return ('sliced',)
+                            if t_[0] == 'agg' and 'Range' in str(t_[1]):
+                                return ('range',)
+                            return tuple(_outside_slicing(x) for x in t_)
+                        if isinstance(t_, list):
+                            return [_outside_slicing(x) for x in t_]
+                        if isinstance(t_, dict):
+                            return {k_: _outside_slicing(v_) for k_, v_ in t_.items()}
+                        return t_
+                    outer_ns = _outside_slicing(outer)
+                    consts_added = [n_ for n_ in walk(outer_ns) if (n_[0] == 'binop' and n_[1] in ('Add', 'AddWithOverflow') and
+                                                                 any(isinstance(x, tuple) and x[0] == 'const' and isinstance(x[1], int) and x[1] > 0 for x in (n_[2], n_[3]))) or
+                                    (n_[0] == 'call' and n_[1].split('::')[-1] in ('checked_add', 'saturating_add', 'wrapping_add') and
+                                     any(isinstance(x, tuple) and x[0] == 'const' and isinstance(x[1], int) and x[1] > 0 for x in n_[2]))]
+                    if consts_added:
+                        finding('R-OFFSETS', b.q, 'computed-base', 'the base of the absolute chunk offsets is computed by adding constants (%s): that is the end of the header, not the '
+                                'chunk data offset the header records - archives with slack between the two are read at the wrong place' % show(consts_added[0])[:60])
                     if bad or has_field(outer, 'header_size') or any(x[0] == 'var' for x in walk(outer)):
                         finding('R-OFFSETS', b.q, 'inferred', 'absolute chunk offset is inferred from lengths / running state (%s) instead of the header field' % (bad or 'accumulator'))
     if n < 1:
